@@ -743,6 +743,9 @@ def r06_6(cx):
         except (Unsupported, EvalPanic):
             ok = False
         ok = ok and all(re.search(r'wrapping_', short(c[1])) for c in urows[0].calls(r'core::num::'))
+        # the hash lives in the full usize range: every arithmetic step must be a wrapping_* call (a plain `*`, `+`, `-`, `<<` is a
+        # checked operation that panics in builds with overflow checks once the window is long enough)
+        ok = ok and not any(x[0] == 'op' and x[1].replace('WithOverflow', '').replace('Unchecked', '') in ('Add', 'Sub', 'Mul', 'Shl') for x in subterms(urows[0].ret))
     cx.report('R06.6', u, 'update', ok, 'update = ((prev - old * hash_2pow) << 1) + new (wrapping)' if ok else 'update_hash deviates from ((prev - old * hash_2pow) << 1) + new')
     hh = cx.body('packed::rabinkarp::RabinKarp::hash')
     okh = False
@@ -761,7 +764,8 @@ def r06_6(cx):
                 cur = sym.default_local(l)
                 try:
                     if nx and teval(r.env.get(l, cur), lambda t0: 9 if t0 == cur else (4 if (t0[0] == 'f' and t0[1][0] == 'dc' and t0[1][1] == nx[0]) else None)) == (9 << 1) + 4:
-                        okh = True
+                        # wrapping arithmetic only (see update)
+                        okh = not any(x[0] == 'op' and x[1].replace('WithOverflow', '').replace('Unchecked', '') in ('Add', 'Sub', 'Mul', 'Shl') for x in subterms(r.env.get(l, cur)))
                 except (Unsupported, EvalPanic):
                     pass
     cx.report('R06.6', hh, 'hash', okh, 'hash = fold((h << 1) + byte) over the window' if okh else 'hash deviates')
